@@ -1,1 +1,91 @@
-From QS Require Import theories.Spec.
+(** C08 — A fixed-weight backtest reproduces the documented trading rules exactly.
+    FULL STATEMENT (not yet a theorem): for every fixed-weight configuration and every fully quoted
+    market, the fills (time, asset, quantity, price, commission), final cash and holdings, and daily
+    equity of [Backtest.run] equal those of [Spec.spec_run].
+    PROVED below: the per-step commutation lemmas of that refinement ([..._partial] marks the
+    theorem that stands for the missing composition).  The composition itself is exercised on every
+    run by the correspondence check, which compares the real sessions with [Spec.spec_run]. *)
+From Coq Require Import ZArith QArith String List.
+From QS Require Import theories.Num theories.Position theories.Portfolio theories.Fees theories.Broker
+  theories.Sizer theories.PCM theories.Backtest theories.Spec proofs.Ledger proofs.PcmProofs proofs.Refinement.
+Import ListNotations.
+Open Scope Z_scope.
+
+(** executing one order at the quoted price does to cash exactly what the rules say and records
+    the same fill (price, commission on the consideration rounded to a whole unit) *)
+Theorem backtest_refines_spec_partial :
+  forall snap b a q id b1 ef st p,
+    snap_find a snap = Some p ->
+    (st_cash st == cash_of pid b)%Q ->
+    execute (snap_bidask snap) b pid (mkOrd id a q) = (b1, Ok tt, ef) ->
+    exists st' comm,
+      fill_one (b_fee b) (b_dt b) snap st (a, q) = Some (st', SFill (b_dt b) a q p comm) /\
+      ef = [Fill pid (mkTxn a (inject_Z q) (b_dt b) p comm id)] /\
+      (st_cash st' == cash_of pid b1)%Q.
+Proof. exact execute_refines_fill_one. Qed.
+Print Assumptions backtest_refines_spec_partial.
+
+(** the broker's "sells first, each side in queue order" is the rules' "sells first, then buys" *)
+Theorem open_fill_order_is_sells_then_buys :
+  forall orders : list order,
+    map (fun po => (o_asset (snd po), o_qty (snd po))) (sells_first (map (fun o => (pid, o)) orders)) =
+    filter (fun o => snd o <? 0) (map (fun o => (o_asset o, o_qty o)) orders) ++
+    filter (fun o => negb (snd o <? 0)) (map (fun o => (o_asset o, o_qty o)) orders).
+Proof. exact sells_first_single_portfolio. Qed.
+Print Assumptions open_fill_order_is_sells_then_buys.
+
+(** daily equity: the account equity is cash plus holdings valued at the marked prices *)
+Theorem equity_is_cash_plus_holdings_at_close :
+  forall pf snap,
+    (forall a p, In (a, p) (pf_pos pf) -> snap_find a snap = Some (p_price p) /\
+                                          (pos_net p == inject_Z (Qround.Qfloor (pos_net p)))%Q) ->
+    exists v, value_of (map (fun ap => (fst ap, Qround.Qfloor (pos_net (snd ap)))) (pf_pos pf)) snap = Some v /\
+              (pf_total_equity pf == pf_cash pf + v)%Q.
+Proof. exact equity_is_cash_plus_marked_holdings. Qed.
+Print Assumptions equity_is_cash_plus_holdings_at_close.
+
+(** the rules' sizing formulas are the sizers' per-asset functions (C10, C11 characterise them) *)
+Theorem long_only_rule_is_the_sizer : forall budget fee w p,
+  Qround.Qfloor ((budget * w - fee_total fee (budget * w)) / p) = lo_qty budget fee w p.
+Proof. exact spec_long_only_quantity. Qed.
+Print Assumptions long_only_rule_is_the_sizer.
+Theorem long_short_rule_is_the_sizer : forall equity fee w p,
+  qtrunc (inject_Z (trunc_q (equity * w - fee_total fee (equity * w))) / p) = ls_qty equity fee w p.
+Proof. exact spec_long_short_quantity. Qed.
+Print Assumptions long_short_rule_is_the_sizer.
+
+(** order generation: target minus current for every target asset (C09) *)
+Theorem orders_are_target_minus_holdings : forall target current a,
+  NoDup (map fst target) ->
+  (In a (map fst target) -> z_find a (rebalance_orders target current) = z_find a target - z_find a current) /\
+  (~ In a (map fst target) -> z_find a (rebalance_orders target current) = 0).
+Proof. exact orders_are_diff. Qed.
+Print Assumptions orders_are_target_minus_holdings.
+
+(** Non-vacuity / a first instance of the full statement: a 60/40 weekly session over three weeks,
+    computed by both the session model and the rules simulator - same fills, cash, holdings, equity. *)
+Definition mk8 (t : Z) : snapshot :=
+  [("A"%string, (100 # 1) + inject_Z ((t / 86400) mod 7))%Q; ("B"%string, (50 # 1) - inject_Z ((t / 43200) mod 5) / 4)%Q].
+Definition cfg8 : config :=
+  mkCfg (18267 * 86400) (18285 * 86400 + 86340) (StaticU ["A"; "B"]%string)
+        (AFixed [("A"%string, (3 # 5)%Q); ("B"%string, (2 # 5)%Q)]) (100000 # 1)%Q (RWeekly "WED") true (1 # 20)%Q
+        (PercentFee (1 # 1000) 0) None None.
+Definition spec8 : spec_cfg :=
+  mkSpec (18267 * 86400) (18285 * 86400 + 86340) ["A"; "B"]%string [("A"%string, (3 # 5)%Q); ("B"%string, (2 # 5)%Q)]
+         (100000 # 1)%Q (match Schedule.weekly (18267 * 86400) (18285 * 86400 + 86340) "WED" false with Ok l => l | Err _ => [] end)
+         true (1 # 20)%Q (PercentFee (1 # 1000) 0) None.
+Definition session_fills (tr : list (Z * output)) : list (Z * string * Q * Q * Q) :=
+  flat_map (fun o => match snd o with OFill tx => [(fst o, t_asset tx, t_qty tx, t_price tx, t_comm tx)] | _ => [] end) tr.
+Definition spec_fills (days : list day_out) : list (Z * string * Q * Q * Q) :=
+  flat_map (fun d => map (fun f => match f with SFill t a q p c => (t, a, inject_Z q, p, c) end) (d_fills d)) days.
+Example instance_of_the_full_statement :
+  exists tr st days,
+    run cfg8 mk8 = Ok tr /\ spec_run spec8 mk8 = Some (st, days) /\
+    session_fills tr = spec_fills days /\ length (session_fills tr) = 6%nat /\
+    map (fun o => fst o) (filter (fun o => match snd o with OEquity _ => true | _ => false end) tr) =
+    flat_map (fun d => match d_equity d with Some e => [fst e] | None => [] end) days.
+Proof.
+  eexists. eexists. eexists. split; [vm_compute; reflexivity|]. split; [vm_compute; reflexivity|].
+  split; [vm_compute; reflexivity|]. split; reflexivity.
+Qed.
+Print Assumptions instance_of_the_full_statement.
